@@ -5,7 +5,7 @@
    the variable unset or set to 1 (or after enable_pedantic()) they check.  The switch is read
    only when a decorator is applied: toggling it afterwards never changes the behaviour of
    already decorated callables."   Domain: the variable is unset, "0" or "1".              *)
-From Coq Require Import List Bool String.
+From Coq Require Import List Bool String Arith.
 From PV Require Import Base.Exn Model.EnvSwitch.
 Import ListNotations.
 Open Scope list_scope.
@@ -27,23 +27,32 @@ Definition op_in_domain (o : op) : bool :=
   match o with OSetenv s => in_domain (Val s) | _ => true end.
 
 (* the specification as a machine: what was decided at decoration time is all that matters *)
-Record sstate := { s_env : envv; s_objs : list bool }.      (* true = decorated while enabled *)
+(* s_objs: true = decorated while enabled.  s_decos: how many decorator objects have been created; nothing else about
+   them matters ("the switch is read only when a decorator is applied") *)
+Record sstate := { s_env : envv; s_objs : list bool; s_decos : nat }.
+
+Definition s_with_env (s : sstate) (e : envv) : sstate := {| s_env := e; s_objs := s_objs s; s_decos := s_decos s |}.
+
+(* applying a decorator: identity iff the variable is "0" NOW *)
+Definition spec_decorate (s : sstate) : sstate * obs :=
+  let en := spec_enabled (s_env s) in
+  ({| s_env := s_env s; s_objs := s_objs s ++ [en]; s_decos := s_decos s |}, ODeco (negb en)).
 
 Definition spec_step (s : sstate) (o : op) : sstate * obs :=
   match o with
-  | OSetenv v => ({| s_env := Val v; s_objs := s_objs s |}, ONone)
-  | OUnsetenv => ({| s_env := Unset; s_objs := s_objs s |}, ONone)
-  | OEnable => ({| s_env := Val "1"; s_objs := s_objs s |}, ONone)
-  | ODisable => ({| s_env := Val "0"; s_objs := s_objs s |}, ONone)
-  | ODecorate _ _ =>
-    let en := spec_enabled (s_env s) in
-    ({| s_env := s_env s; s_objs := s_objs s ++ [en] |}, ODeco (negb en))      (* identity iff disabled *)
+  | OSetenv v => (s_with_env s (Val v), ONone)
+  | OUnsetenv => (s_with_env s Unset, ONone)
+  | OEnable => (s_with_env s (Val "1"), ONone)
+  | ODisable => (s_with_env s (Val "0"), ONone)
+  | ODecorate _ _ => spec_decorate s
   | OCall i =>
     match nth_error (s_objs s) i with
     | Some true => (s, OCalled Checked)
     | Some false => (s, OCalled Plain)
     | None => (s, ONone)
     end
+  | OCreate _ => ({| s_env := s_env s; s_objs := s_objs s; s_decos := S (s_decos s) |}, ONone)   (* creating reads nothing *)
+  | OApply k _ => if Nat.ltb k (s_decos s) then spec_decorate s else (s, ONone)
   end.
 
 Fixpoint spec_run (s : sstate) (h : list op) : sstate * list obs :=
